@@ -1,6 +1,7 @@
 package props
 
 import (
+	"sync"
 	"context"
 	"encoding/json"
 	"fmt"
@@ -32,6 +33,7 @@ type svcWorld struct {
 	lastS, lastC map[*bed.DT]uint64
 	errPacks     int
 	rpcErrs      int
+	sdk          bool
 }
 
 type svcKey struct {
@@ -51,7 +53,6 @@ func newSvcWorld(c *core.Case, col string) (*svcWorld, error) {
 	return w, nil
 }
 
-func (w *svcWorld) close() { w.b.Close() }
 
 // idle waits for server-side quiescence; ok=false => inconclusive.
 func (w *svcWorld) idle() bool { return w.b.Idle(20 * time.Second) }
@@ -82,6 +83,9 @@ func (w *svcWorld) sync(cl *bed.Client, dts ...*bed.DT) (*syncResult, string, st
 	}
 	if len(dts) == 0 {
 		return nil, "", ""
+	}
+	if cl.SDK {
+		return w.syncSDK(cl)
 	}
 	req := cl.BuildRequest(dts...)
 	w.ledger.Offer(req)
@@ -136,6 +140,76 @@ func (w *svcWorld) sync(cl *bed.Client, dts ...*bed.DT) (*syncResult, string, st
 		w.lastS[d], w.lastC[d] = s, cs
 	}
 	return res, "", ""
+}
+
+// syncSDK: the client's own Sync() over real grpc (DatatypeManager.SyncAll: all datatypes
+// of the client in one message, response packs matched to datatypes by the SDK itself).
+func (w *svcWorld) syncSDK(cl *bed.Client) (*syncResult, string, string) {
+	nerr := func() int {
+		n := 0
+		for _, d := range cl.DTs {
+			errs, _, _ := d.Handler()
+			n += len(errs)
+		}
+		return n
+	}
+	before := nerr()
+	w.c.Step("%s Sync() through the SDK (%d datatypes in one message)", cl.Alias, len(cl.DTs))
+	out := cl.SyncSDK()
+	res := &syncResult{}
+	if out.Panic != "" {
+		return res, "client-panic", fmt.Sprintf("Client.Sync() panicked: %s", out.Panic)
+	}
+	if out.TimedOut {
+		if out.Hang {
+			return res, "request-hang", "Client.Sync() never returned: the server waits for a handler reply while no handler goroutine exists\n" + clipDump(out.Dump)
+		}
+		return res, "INCONCLUSIVE", "Client.Sync() did not return within the watchdog"
+	}
+	if out.Err != nil {
+		w.rpcErrs++
+		w.c.Count("rpc_errors", 1)
+	}
+	if n := nerr() - before; n > 0 {
+		w.errPacks += n
+		w.c.Count("error_packs", int64(n))
+	}
+	w.c.Count("sdk_syncs", 1)
+	for _, d := range cl.DTs {
+		cp := d.W.CreatePushPullPack()
+		s, cs := cp.CheckPoint.Sseq, cp.CheckPoint.Cseq-uint64(len(cp.Operations))
+		if s < w.lastS[d] || cs < w.lastC[d] {
+			return res, "checkpoint-backwards", fmt.Sprintf("%s/%s: checkpoint moved from (%d,%d) to (%d,%d)", cl.Alias, d.Key, w.lastS[d], w.lastC[d], s, cs)
+		}
+		w.lastS[d], w.lastC[d] = s, cs
+	}
+	return res, "", ""
+}
+
+// useSDK switches the world to SDK clients over the grpc front: requests are recorded in
+// the ledger at the front, response packs are shuffled (seeded).
+func (w *svcWorld) useSDK() error {
+	rpc, err := w.b.Front()
+	if err != nil {
+		return err
+	}
+	shuf := newRand(w.c.Rng.Int63())
+	var mu sync.Mutex
+	rpc.SetTaps(func(req *model.PushPullMessage) { w.ledger.Offer(req) }, func(resp *model.PushPullMessage) {
+		mu.Lock()
+		defer mu.Unlock()
+		ps := resp.PushPullPacks
+		shuf.Shuffle(len(ps), func(i, j int) { ps[i], ps[j] = ps[j], ps[i] })
+	})
+	w.sdk = true
+	return nil
+}
+
+func (w *svcWorld) close() {
+	for _, cl := range w.cls {
+		cl.CloseSDK()
+	}
+	w.b.Close()
 }
 
 func clipDump(d string) string {
